@@ -269,6 +269,19 @@ fn cmd_check(prop: &str, tier: Tier, part: bool) -> i32 {
             if let Some(k) = known.iter().find(|k| k.status == "known" && k.property == prop && k.signature == f.signature) {
                 let e = known_hit.entry(k.signature.clone()).or_insert((k.what.clone(), 0));
                 e.1 += b.found.iter().filter(|x| x.signature == f.signature).count() as u64;
+                // development aid (off by default): write the minimised witness of a listed finding
+                if std::env::var("VERIF_WRITE_WITNESS").is_ok() {
+                    let wpath = root().join("known").join(format!("{}.json", sanitize(&k.signature)));
+                    if !wpath.exists() {
+                        let (min_case, _) = minimise::minimise(&f.case, &f.signature, s.run, 2000);
+                        let out = (s.run)(&min_case, true);
+                        write_json(&wpath, &json!({
+                            "property": prop, "scenario": s.name, "profile": profile(), "signature": f.signature,
+                            "case": min_case, "log_hash": format!("{:016x}", out.hash),
+                            "detail": out.violations.iter().find(|v| v.signature == f.signature).map(|v| v.detail.clone()),
+                        }));
+                    }
+                }
                 continue;
             }
             violations += 1;
@@ -318,6 +331,7 @@ fn cmd_check(prop: &str, tier: Tier, part: bool) -> i32 {
 
     // release-profile leg, as a child process of the checked build
     let mut release_part: Option<Value> = None;
+    let mut release_known: BTreeMap<String, u64> = BTreeMap::new();
     if def.both_profiles && !part && profile() == "checked" {
         let exe = std::env::current_exe().unwrap();
         let rel = exe.parent().unwrap().parent().unwrap().join("release").join("mqtt-sim");
@@ -334,6 +348,15 @@ fn cmd_check(prop: &str, tier: Tier, part: bool) -> i32 {
             }
             let p = root().join("evidence").join(format!(".{prop}.release.part.json"));
             release_part = std::fs::read_to_string(&p).ok().and_then(|t| serde_json::from_str(&t).ok());
+            if let Some(rp) = &release_part {
+                if let Some(a) = rp["coverage"]["known_findings_hit"].as_array() {
+                    for k in a {
+                        if let (Some(sg), Some(n)) = (k["signature"].as_str(), k["runs"].as_u64()) {
+                            *release_known.entry(sg.to_string()).or_insert(0) += n;
+                        }
+                    }
+                }
+            }
             let _ = std::fs::remove_file(&p);
         } else {
             eprintln!("harness error: release build {} missing", rel.display());
@@ -341,8 +364,37 @@ fn cmd_check(prop: &str, tier: Tier, part: bool) -> i32 {
         }
     }
 
-    for (sig, (what, n)) in &known_hit {
-        println!("KNOWN-FINDING: property={prop} {what} [signature {sig}, {n} runs]");
+    // every listed known finding is re-confirmed from its committed witness case, so the line below
+    // is printed from an observation of this run, not from the list alone
+    if !part {
+        for k in known.iter().filter(|k| k.status == "known" && k.property == prop) {
+            let wpath = root().join("known").join(format!("{}.json", sanitize(&k.signature)));
+            let confirmed = match std::fs::read_to_string(&wpath).ok().and_then(|t| serde_json::from_str::<Value>(&t).ok()) {
+                Some(j) => {
+                    let want_profile = j["profile"].as_str().unwrap_or("checked").to_string();
+                    if want_profile != profile() {
+                        let exe = std::env::current_exe().unwrap();
+                        let other = exe.parent().unwrap().parent().unwrap().join(&want_profile).join("mqtt-sim");
+                        Command::new(other).arg("replay").arg(&wpath).arg("--verify").status().ok().and_then(|s| s.code()) == Some(1)
+                    } else {
+                        match serde_json::from_value::<Case>(j["case"].clone()) {
+                            Ok(case) => scenario_by_name(&case.scenario)
+                                .map(|s| (s.run)(&case, false).violations.iter().any(|v| v.signature == k.signature))
+                                .unwrap_or(false),
+                            Err(_) => false,
+                        }
+                    }
+                }
+                None => false,
+            };
+            let hit = known_hit.get(&k.signature).map(|x| x.1).unwrap_or(0) + release_known.get(&k.signature).copied().unwrap_or(0);
+            if confirmed || hit > 0 {
+                println!("KNOWN-FINDING: property={prop} {} [signature {}; witness {}; hit in {hit} runs of this batch]", k.what, k.signature, if confirmed { "reproduced" } else { "missing" });
+                known_hit.entry(k.signature.clone()).or_insert((k.what.clone(), 0));
+            } else {
+                println!("note: listed known finding {} no longer reproduces on this tree (neither its witness nor any run of this batch)", k.signature);
+            }
+        }
     }
 
     let wall = started.elapsed().as_secs_f64();
